@@ -282,7 +282,7 @@ def main():
     scratch = Scratch('klepto-c14')
     results = []
     bound = 3 if thorough else 2
-    limit = 1500 if thorough else 120
+    limit = 4000 if thorough else 120
     try:
         eng = Engine(scratch)
         with ThreadPoolExecutor(3) as outer:
